@@ -46,7 +46,8 @@ class C13(Campaign):
                  "(attribute names as event names) with before/after snapshots; reference interpreter")
     quick_runs = 3000
     thorough_runs = 50000
-    fault_kinds = ["garbage-event: machine method / property / dunder / private helper / state id / callback name",
+    fault_kinds = ["garbage-event: machine method / property / dunder / private helper / state id / callback name / "
+                   "user-defined property (also one that raises) / trigger of another machine bound onto this one",
                    "unknown-event", "style: call / events item / allowed_events item / bind_events_to target / "
                    "MachineMixin model method"]
     rule = ("one run = a generated machine and a 5-25 operation history run twice: baseline (every send via "
@@ -83,7 +84,23 @@ class C13(Campaign):
             new["bind"] = rnd.random() < 0.5
         names = GARBAGE + [s["id"] for s in prog["states"]] + \
             sorted({c.split(".", 1)[1] for c in prog["cbs"] if c.startswith("machine.")})
+        # user-defined attributes of the machine whose evaluation is observable
+        prog["probes"] = [{"name": "probe_prop", "kind": "property"},
+                          {"name": "probe_boom", "kind": "raising_property"},
+                          {"name": "probe_method", "kind": "method"}]
+        names += ["probe_prop", "probe_boom", "probe_method"] * 2
         out = [new]
+        foreign = (not mixin) and rnd.random() < 0.3
+        if foreign:
+            # another machine whose trigger `zap` gets bound onto this machine object
+            fprog = {"name": "F0", "module": "simgen_f0", "listeners": [], "model": {"kind": "attr", "field": "state"},
+                     "states": [{"id": "f0", "initial": True, "final": False}, {"id": "f1", "initial": False, "final": False}],
+                     "trans": [{"src": "f0", "dst": "f1", "events": ["zap"]}, {"src": "f1", "dst": "f0", "events": ["zap"]}],
+                     "events": ["zap"], "cbs": {}}
+            sc["programs"].append(fprog)
+            out = [{"op": "new", "inst": "Z", "prog": 1, "listeners": []}, new,
+                   {"op": "bind_foreign", "inst": "A", "from": "Z"}]
+            names += ["zap"] * 6
         for op in sc["ops"][1:]:
             if rnd.random() < 0.18:
                 g = rnd.choice(names)
@@ -148,9 +165,13 @@ class C13(Campaign):
                 d["name_kind"] = self.name_kind(prog, op.get("event")) if op.get("garbage") else None
                 return {"clause": clause, "kind": kind, "op": f["op"], "detail": d}
         # events lists every declared event
-        want = sorted(prog["events"])
+        prog_of = {o["inst"]: o["prog"] for o in sc["ops"] if o["op"] == "new"}
         for o in res["outs"]:
             obs = o.get("obs") or {}
+            inst_ = sc["ops"][o["n"]].get("inst")
+            if inst_ not in prog_of:
+                continue
+            want = sorted(sc["programs"][prog_of[inst_]]["events"])
             if "events" in obs and obs["events"] != want:
                 return {"clause": "C13.events", "kind": "events", "op": o["n"],
                         "detail": {"expected": want, "actual": obs["events"]}}
@@ -173,6 +194,10 @@ class C13(Campaign):
     def name_kind(prog, name):
         if name is None:
             return None
+        if name == "zap":
+            return "foreign_bound_trigger"
+        if name.startswith("probe_"):
+            return "user_defined_attribute"
         if name in [s["id"] for s in prog["states"]]:
             return "state_id"
         if name in {c.split(".", 1)[1] for c in prog["cbs"]}:
